@@ -18,6 +18,7 @@ import (
 	"sort"
 	"strconv"
 	"strings"
+	"sync/atomic"
 	"testing"
 	"testing/synctest"
 	"time"
@@ -120,6 +121,9 @@ func (c *vfSCase) opLine(tag int, ks []int) string {
 		in = append(in, fmt.Sprintf("%d:%d", d, c.init[d]))
 	}
 	fmt.Fprintf(&sb, " init=%s", join(in))
+	if c.lat > 0 { // latency cases are never sent to the model; the token makes their replay files re-runnable
+		fmt.Fprintf(&sb, " lat=%d", c.lat)
+	}
 	if len(c.oth) > 0 { // ignored by the model: records of other run ids must be invisible
 		fmt.Fprintf(&sb, " oth=%s", strings.Join(c.oth, ","))
 	}
@@ -218,9 +222,14 @@ func vfRunSend(t *testing.T, c *vfSCase, tg *vfdoubles.Target, startDb int, star
 			// what setCheckpoint leaves at the end of the full sync that precedes the stream
 			ro.checkpointInMem = checkpoint.CheckpointInfo{Key: c.cp, RunId: c.rid, Offset: start, Version: config.Version}
 		}
+		var latOff atomic.Bool
 		if c.lat > 0 {
 			lat := time.Duration(c.lat) * time.Microsecond
-			tg.Hook = func(int, vfdoubles.LogEntry) { time.Sleep(lat) }
+			tg.Hook = func(int, vfdoubles.LogEntry) {
+				if !latOff.Load() {
+					time.Sleep(lat)
+				}
+			}
 			defer func() { tg.Hook = nil }()
 		}
 		ctx, cancel := context.WithCancel(context.Background())
@@ -263,6 +272,12 @@ func vfRunSend(t *testing.T, c *vfSCase, tg *vfdoubles.Target, startDb int, star
 		<-schedDone
 		synctest.Wait()
 		tg.CloseAll()
+		if c.lat > 0 {
+			// let the double's connection goroutines that still sleep in the latency hook finish
+			latOff.Store(true)
+			time.Sleep(time.Duration(c.lat)*time.Microsecond + time.Second)
+			synctest.Wait()
+		}
 	})
 	log := tg.LogCopy()
 	return log[nSeed:], ro
@@ -1210,6 +1225,15 @@ func TestVerifSender(t *testing.T) {
 		c := vfGenCase(r.Fork(), i)
 		vfSenderCase(t, s, r, c, tag, "gen")
 		vfRerunCase(t, s, r, c, tag)
+		if r.Chance(1, 4) {
+			// the same case against a target that takes virtual time per request: ticks, the end of the
+			// stream and further items then become ready while a batch is in flight (several select cases
+			// ready at once, a pipelined batch unacknowledged). The order the loop picks is not determined
+			// by the instants, so these runs are judged by the monitors only, not compared with the model.
+			cl := *c
+			cl.lat = vfutil.Pick(r, []int{1000, 40000, 1100000, 3100000})
+			vfSenderCase(t, s, r, &cl, tag, "lat")
+		}
 		tag++
 	}
 }
@@ -1266,6 +1290,7 @@ func vfParseCase(op string) *vfSCase {
 		c.init[atoi(ab[0])] = o
 	}
 	c.oth = list(kv["oth"], ",")
+	c.lat = atoi(kv["lat"])
 	for _, cmd := range list(kv["raw"], ";") {
 		var args [][]byte
 		for _, a := range strings.Split(cmd, ".") {
